@@ -484,6 +484,163 @@ def main():
                     e = (f"{cname}.{f.name}",) + src_of[tgt.id]
                     if e not in edits:
                         edits.append(e)
+    # ---- round 4: the grid as an object — `Grid.__init__`, `Grid.euclidean_distance` (argument
+    # wiring of the kernel call), `distance` of both classes, `GeoGrid.__init__`,
+    # `GeoGrid.coord_sequence_from_rect_grid`
+    def lstr(x):
+        return '"' + x.replace("\\", "\\\\").replace('"', '\\"') + '"'
+
+    gtree = ast.parse(open(os.path.join(REPO, "src/pyunicorn/core/grid.py")).read())
+    gcls = [n for n in gtree.body if isinstance(n, ast.ClassDef) and n.name == "Grid"][0]
+    gmeth = {n.name: n for n in gcls.body if isinstance(n, ast.FunctionDef)}
+    init = gmeth["__init__"]
+    space_arg = [a.arg for a in init.args.args][2]
+    iasg = {ast.unparse(st.targets[0]): st.value for st in ast.walk(init)
+            if isinstance(st, ast.Assign) and len(st.targets) == 1}
+    need("self.N" in iasg and "self._grid_size" in iasg and "self._grid" in iasg,
+         "Grid.__init__: assignments to self.N, self._grid_size, self._grid")
+
+    def dict_entry(d, key, what):
+        need(isinstance(d, ast.Dict), f"{what}: dict literal")
+        for k, v in zip(d.keys, d.values):
+            if isinstance(k, ast.Constant) and k.value == key:
+                return v
+        raise Shape(f"{what}: no key {key!r}")
+
+    def shape_expr(e, arrays, selfN=None):
+        """a size expression over the shape of the coordinate array: `A.shape[k]`, `A.ndim`,
+        `len(A)`, `self.N`, integer constants, + - *"""
+        if isinstance(e, ast.Subscript) and isinstance(e.value, ast.Attribute) \
+                and e.value.attr == "shape" and ast.unparse(e.value.value) in arrays \
+                and isinstance(e.slice, ast.Constant) and e.slice.value in (0, 1):
+            return f"shape{e.slice.value}"
+        if isinstance(e, ast.Attribute) and e.attr == "ndim" and ast.unparse(e.value) in arrays:
+            return "ndim"
+        if isinstance(e, ast.Call) and ast.unparse(e.func) == "len" and len(e.args) == 1 \
+                and ast.unparse(e.args[0]) in arrays:
+            return "shape0"
+        if isinstance(e, ast.Constant) and isinstance(e.value, int) and not isinstance(e.value, bool) \
+                and e.value >= 0:
+            return str(e.value)
+        if isinstance(e, ast.Attribute) and ast.unparse(e) == "self.N" and selfN is not None:
+            return selfN
+        if isinstance(e, ast.BinOp) and type(e.op) in (ast.Add, ast.Sub, ast.Mult):
+            op = {ast.Add: "+", ast.Sub: "-", ast.Mult: "*"}[type(e.op)]
+            return f"({shape_expr(e.left, arrays, selfN)} {op} {shape_expr(e.right, arrays, selfN)})"
+        raise Shape(f"size expression {ast.unparse(e)}")
+
+    nexpr = iasg["self.N"]
+    if ast.unparse(nexpr) in ("self._grid_size['space']", 'self._grid_size["space"]'):
+        nexpr = dict_entry(iasg["self._grid_size"], "space", "Grid.__init__: self._grid_size")
+    selfN = shape_expr(nexpr, [space_arg])
+    stored = ast.unparse(dict_entry(iasg["self._grid"], "space", "Grid.__init__: self._grid"))
+
+    ed = gmeth["euclidean_distance"]
+    easg = {st.targets[0].id: st.value for st in stmts(ed)
+            if isinstance(st, ast.Assign) and isinstance(st.targets[0], ast.Name)}
+    ecall = [n for n in ast.walk(ed) if isinstance(n, ast.Call)
+             and ast.unparse(n.func) == "_calculate_euclidean_distance"]
+    need(len(ecall) == 1 and len(ecall[0].args) == 4 and not ecall[0].keywords
+         and all(isinstance(a, ast.Name) for a in ecall[0].args),
+         "euclidean_distance: one kernel call with four positional names")
+    cargs = [a.id for a in ecall[0].args]
+    kpar = pyx_function(src, "_calculate_euclidean_distance")[1]
+    bind = dict(zip(kpar, cargs))
+    need(set(bind) >= {"x", "distance", "N_dim", "N_nodes"}, "euclid kernel parameter names")
+    for nm_ in (bind["x"], bind["distance"], bind["N_dim"], bind["N_nodes"]):
+        need(nm_ in easg, f"euclidean_distance: local {nm_}")
+    eret = [st for st in stmts(ed) if isinstance(st, ast.Return)]
+    need(len(eret) == 1, "euclidean_distance: one return")
+    seqname = bind["x"]
+    L += ["/-- round 4 — `Grid.euclidean_distance`: the value passed as the kernel's `N_dim`, as a "
+          "function of the shape `(shape0, shape1)` / `ndim` of the coordinate array -/",
+          "def eucNDim (shape0 shape1 ndim : Nat) : Nat := "
+          + shape_expr(easg[bind["N_dim"]], [seqname], selfN),
+          "/-- … and as the kernel's `N_nodes` (`self.N` resolved through `Grid.__init__`) -/",
+          "def eucNNodes (shape0 shape1 ndim : Nat) : Nat := "
+          + shape_expr(easg[bind["N_nodes"]], [seqname], selfN),
+          "/-- `self.N` as `Grid.__init__` sets it -/",
+          f"def gridN (shape0 shape1 ndim : Nat) : Nat := {selfN}",
+          "/-- (kernel parameter, local passed in that position, expression the local holds) -/",
+          "def eucBinding : List (String × String × String) := ["
+          + ", ".join(f"({lstr(k)}, {lstr(bind[k])}, {lstr(ast.unparse(easg[bind[k]]))})"
+                      for k in ("x", "distance")) + "]",
+          f"def eucReturn : String := {lstr(ast.unparse(eret[0].value))}",
+          "/-- what `Grid.__init__` stores as `_grid[\"space\"]` -/",
+          f"def gridSpaceStored : String := {lstr(stored)}", ""]
+
+    gg_tree = ast.parse(open(os.path.join(REPO, "src/pyunicorn/core/geo_grid.py")).read())
+    ggcls = [n for n in gg_tree.body if isinstance(n, ast.ClassDef) and n.name == "GeoGrid"][0]
+    ggm = {n.name: n for n in ggcls.body if isinstance(n, ast.FunctionDef)}
+    dist_t = []
+    for cname, mm in (("Grid", gmeth), ("GeoGrid", ggm)):
+        ds = stmts(mm["distance"])
+        need(len(ds) == 1 and isinstance(ds[0], ast.Return), f"{cname}.distance: return …")
+        dist_t.append((cname, ast.unparse(ds[0].value)))
+    ginit = [n for n in ast.walk(ggm["__init__"]) if isinstance(n, ast.Call)
+             and ast.unparse(n.func) == "Grid.__init__"]
+    need(len(ginit) == 1 and len(ginit[0].args) >= 3, "GeoGrid.__init__ calls Grid.__init__")
+    crg = stmts(ggm["coord_sequence_from_rect_grid"])
+    need(len(crg) == 2 and isinstance(crg[0], ast.Assign) and isinstance(crg[1], ast.Return),
+         "GeoGrid.coord_sequence_from_rect_grid: assignment, return")
+    L += ["/-- (class, what its `distance()` returns) -/",
+          "def distanceTargets : List (String × String) := ["
+          + ", ".join(f"({lstr(a)}, {lstr(b)})" for a, b in dist_t) + "]",
+          "/-- the coordinate array `GeoGrid.__init__` hands to `Grid.__init__` -/",
+          f"def geoInitSpace : String := {lstr(ast.unparse(ginit[0].args[2]))}",
+          "/-- `GeoGrid.coord_sequence_from_rect_grid`: (assigned expression, returned expression) -/",
+          f"def geoRect : String × String := ({lstr(ast.unparse(crg[0].value))}, "
+          f"{lstr(ast.unparse(crg[1].value))})", ""]
+
+    # ---- round 4: connectivity weighted distance and total link distance (geo_network.py)
+    cw = sm["_calculate_general_connectivity_weighted_distance"]
+    casg = {st.targets[0].id: ast.unparse(st.value) for st in ast.walk(cw)
+            if isinstance(st, ast.Assign) and len(st.targets) == 1
+            and isinstance(st.targets[0], ast.Name)}
+    cloops = [st for st in ast.walk(cw) if isinstance(st, ast.For)]
+    need(len(cloops) == 1 and len(cloops[0].body) == 1 and isinstance(cloops[0].body[0], ast.Assign),
+         "_calculate_general_connectivity_weighted_distance: one loop with one store")
+    caug = [st for st in ast.walk(cw) if isinstance(st, ast.AugAssign)]
+    need(len(caug) == 1, "_calculate_general_connectivity_weighted_distance: one augmented assignment")
+    cret = [st for st in stmts(cw) if isinstance(st, ast.Return)]
+    need(len(cret) == 1, "_calculate_general_connectivity_weighted_distance: one return")
+    wr = []
+    for nm_ in ("connectivity_weighted_distance", "inconnectivity_weighted_distance",
+                "outconnectivity_weighted_distance"):
+        f_ = sm[nm_]
+        la = {st.targets[0].id: ast.unparse(st.value) for st in ast.walk(f_)
+              if isinstance(st, ast.Assign) and isinstance(st.targets[0], ast.Name)}
+        c_ = [n for n in ast.walk(f_) if isinstance(n, ast.Call) and ast.unparse(n.func)
+              == "self._calculate_general_connectivity_weighted_distance"]
+        need(len(c_) == 1 and len(c_[0].args) == 2 and all(isinstance(a, ast.Name) for a in c_[0].args),
+             f"{nm_}: one call of the general routine with two locals")
+        wr.append((nm_, la.get(c_[0].args[0].id, "?"), la.get(c_[0].args[1].id, "?")))
+    tl = []
+    for nm_ in ("total_link_distance", "intotal_link_distance", "outtotal_link_distance"):
+        f_ = sm[nm_]
+        la = {st.targets[0].id: ast.unparse(st.value) for st in ast.walk(f_)
+              if isinstance(st, ast.Assign) and isinstance(st.targets[0], ast.Name)}
+        r_ = [st for st in stmts(f_) if isinstance(st, ast.Return)]
+        need(len(r_) == 1 and isinstance(r_[0].value, ast.BinOp) and isinstance(r_[0].value.op, ast.Mult)
+             and isinstance(r_[0].value.left, ast.Name) and isinstance(r_[0].value.right, ast.Name),
+             f"{nm_}: returns a product of two locals")
+        tl.append((nm_, la.get(r_[0].value.left.id, "?"), la.get(r_[0].value.right.id, "?")))
+    L += ["/-- `_calculate_general_connectivity_weighted_distance`: locals, the loop (range, target, "
+          "value), the normalisation (target, operator and value), the result -/",
+          "def cwdLocals : List (String × String) := ["
+          + ", ".join(f"({lstr(k)}, {lstr(casg.get(k, '?'))})" for k in ("D", "cos_lat", "norm")) + "]",
+          f"def cwdLoop : String × String × String := ({lstr(ast.unparse(cloops[0].iter))}, "
+          f"{lstr(ast.unparse(cloops[0].body[0].targets[0]))}, {lstr(ast.unparse(cloops[0].body[0].value))})",
+          f"def cwdNormalise : String × String := ({lstr(ast.unparse(caug[0].target))}, "
+          f"{lstr(type(caug[0].op).__name__ + ' ' + ast.unparse(caug[0].value))})",
+          f"def cwdReturn : String := {lstr(ast.unparse(cret[0].value))}",
+          "/-- (wrapper, adjacency passed, degree passed) -/",
+          "def cwdWrappers : List (String × String × String) := ["
+          + ", ".join(f"({lstr(a)}, {lstr(b)}, {lstr(c)})" for a, b, c in wr) + "]",
+          "/-- (method, left factor, right factor) of the returned product -/",
+          "def tldProducts : List (String × String × String) := ["
+          + ", ".join(f"({lstr(a)}, {lstr(b)}, {lstr(c)})" for a, b, c in tl) + "]", ""]
+
     L += ["/-- (method, expression, is the outermost call `.copy()` / `np.array` / `np.copy`) for every "
           "local that holds a distance matrix of the grid and is edited in place (subscript store / "
           "augmented assignment) in that method -/",
